@@ -90,7 +90,8 @@ def experiment(ctx, c, idx):
     if len(steps) > 1:
         jobs["explicit"] = {"kind": "ckpt_restore", "solver": c["solver"], "dir": d, "step": steps[0]}
     ov_sets = [{"new_checkpoint_dir": str(base / "new1"), "checkpoint_frequency": 2, "max_checkpoints": 5, "enable_async_checkpointing": not c["async"]},
-               {"new_checkpoint_dir": str(base / "new2")}, {"checkpoint_frequency": 3}]
+               {"new_checkpoint_dir": str(base / "new2")}, {"checkpoint_frequency": 3},
+               {"new_checkpoint_dir": str(base / "new3"), "checkpoint_frequency": 0}]   # 0 is a value, not "no override"
     if ctx.tier == "thorough":
         keys = [("new_checkpoint_dir", None), ("checkpoint_frequency", 2), ("max_checkpoints", 4), ("enable_async_checkpointing", not c["async"])]
         ov_sets = []
@@ -172,7 +173,10 @@ def oracle(c, e):
         if "new_checkpoint_dir" in ov:
             if r["dir_before"]["digest"] != r["dir_after"]["digest"]:
                 out.append((f"{name}:{c['seed']}", "restore with a new directory altered the original directory"))
-            if not (r["new_dir"] and r["new_dir"]["exists"] and r["new_dir"]["steps"]):
+            if ov.get("checkpoint_frequency") == 0:
+                if r["new_dir"] and r["new_dir"]["exists"]:
+                    out.append((f"{name}:{c['seed']}", "restore with checkpoint_frequency=0 created / wrote the new directory"))
+            elif not (r["new_dir"] and r["new_dir"]["exists"] and r["new_dir"]["steps"]):
                 out.append((f"{name}:{c['seed']}", "later saves did not go to the new directory"))
         else:
             if r["dir_before"]["steps"] != r["dir_after_restore"]["steps"]:
